@@ -382,6 +382,9 @@ def run(tier, seed):
     rep.floor("distinct persistence steps hit", len([k for k in by_step if not k.endswith(":torn")]), 12)
     rep.assumptions = ["process death only: everything written before the crash point is in the copied directory (no loss of un-fsynced page cache)",
                        "the directory copy is taken synchronously inside the hook, on the thread that performs the step"]
+    if tier == "thorough" and not os.environ.get("VERIF_OVERLAY"):
+        import sanitize
+        sanitize.overlay(rep, "asan", timeout=5400)
     return rep.finish()
 
 
